@@ -214,6 +214,8 @@ type Exec struct {
 	dryFrameFn *ssa.Function
 	dryBody map[*ssa.BasicBlock]bool
 	dryAcc map[string]bool
+	dryAlloc0 string // allocation counter at the start of the current dry run
+	dryAllocs bool   // some dry path ended with a different allocation counter
 	dryAll bool
 	dryKept map[string]bool
 	dryKeptSet bool
@@ -267,6 +269,7 @@ func (x *Exec) markRef(name string, l leaf) {
 }
 
 type writeSet struct {
+	allocs bool // the loop body may allocate (directly or through a callee)
 	names  map[string]bool
 	ghosts map[string]bool // ghost variables assigned by hooks inside the loop
 	all    bool
